@@ -75,10 +75,10 @@ def steps_of(P: Program, A: ActionAnalysis):
         _, results = A.run(f)
 
         def keep(e: Event) -> bool:
-            if e.kind == "construct" and e.depth == 0:
+            if e.kind == "construct" and e.xdepth == 0:
                 return True
             if e.kind == "mut" and e.name in ("add_edge", "remove_edge", "add_node", "remove_node"):
-                return bool(e.ctx) and e.ctx[0].split(".")[0] not in user_names
+                return bool(e.xctx) and e.xctx[0].split(".")[0] not in user_names
             return False
 
         def extra(e: Event):
